@@ -13,6 +13,8 @@ import (
 type Config struct {
 	// Follow decides whether a call of a declared module function is walked in place.
 	Follow func(callee *types.Func) bool
+	// FollowCtx, if set, is consulted as well, with the locks held at the call site.
+	FollowCtx func(callee *types.Func, locks []Held) bool
 	// EmitAccess makes the walker emit KAccess events for variable reads and writes.
 	EmitAccess bool
 	MaxDepth   int // inlining bound (default 6)
